@@ -6,6 +6,7 @@
  * One transition = one public API call on the real object code, restored from
  * a byte-image snapshot; the search runs to a fixpoint per document, so it
  * covers protocol-following call sequences of every length. */
+#define VF_MAXNODES 1400      /* rich towers: 5 nodes per level, 254 levels */
 #include "../lib/vf_util.h"
 #include "../lib/vf_ref.h"
 #include "../lib/vf_gen.h"
@@ -764,6 +765,24 @@ static void towers(void)
             vf_b_int(&t, ++leaf); vf_b_blob(&t, VK_STR, "s", 1);
             for (int i = 0; i < k; i++) { vf_b_close(&t); if (i < k - 1) vf_b_int(&t, 10 + (++leaf) % 100); }
             if (variant) { vf_b_name(&t, "b", 1); vf_b_int(&t, 99); vf_b_close(&t); }
+            handle_doc(&t);
+        }
+    /* rich towers: k nested arrays where every level holds, before the inner array, an object with an array-valued field (to be
+     * skipped or entered) and, after it, an integer - the depth bookkeeping of a skip at level 8 / 16 / 32 / ... meets both counters */
+    static const int rk[] = { 2, 7, 8, 9, 15, 16, 17, 31, 32, 33, 63, 64, 65, 127, 128, 129, 253, 254 };
+    for (size_t ki = 0; ki < sizeof rk / sizeof rk[0]; ki++)
+        for (int variant = 0; variant < 2; variant++) {
+            if (!take_doc()) continue;
+            int k = rk[ki], leaf = 0;
+            vf_b_reset(&t);
+            if (variant) { vf_b_open(&t, VK_OBJ); vf_b_name(&t, "a", 1); }
+            for (int i = 0; i < k; i++) {
+                vf_b_open(&t, VK_ARR);
+                vf_b_open(&t, VK_OBJ); vf_b_name(&t, "x", 1); vf_b_open(&t, VK_ARR); vf_b_int(&t, 1 + (++leaf) % 100); vf_b_close(&t); vf_b_close(&t);
+            }
+            vf_b_blob(&t, VK_STR, "s", 1);
+            for (int i = 0; i < k; i++) { vf_b_close(&t); if (i < k - 1) vf_b_int(&t, -1 - (++leaf) % 100); }
+            if (variant) { vf_b_name(&t, "b", 1); vf_b_int(&t, 120); vf_b_close(&t); }
             handle_doc(&t);
         }
     /* containers that start beyond offset 65536 (16-bit offsets wrap) */
